@@ -25,7 +25,7 @@ from typing import Any
 import numpy as np
 
 from ptverif import tlc
-from ptverif.common import NCPU, MachineryError, Run, seed
+from ptverif.common import NCPU, MachineryError, Run, robust_map, seed
 
 PROP = "C15"
 
@@ -60,6 +60,15 @@ def namings(tier: str) -> list[dict]:
         n["named"] = "-"
         out.append(n)
     gen_states += res.distinct
+    res = tlc.run_tlc("PtNamesSP", "PtNamesSP.cfg", workers=1, timeout=600)
+    if res.error:
+        raise MachineryError(f"PtNamesSP generator: {res.error[:500]}")
+    for n in tlc.parse_printed_json(res, "NAMING"):
+        n["template"] = "SP"
+        n["family"] = "size_param"
+        n["named"] = "-"
+        out.append(n)
+    gen_states += res.distinct
     for k, n in enumerate(out):
         n["id"] = f"n{k}"
     rng = np.random.default_rng(seed())
@@ -71,7 +80,8 @@ def namings(tier: str) -> list[dict]:
     rej = [n for n in plain if n["expect"] == "reject"]
     pick = lambda seq, k: [seq[i] for i in sorted(rng.permutation(len(seq))[:k])]  # noqa: E731
     dwf = [n for n in out if n["family"] == "wrapped_data"]
-    sel = (pick(acc, want * 4 // 10) + pick(rej, want * 1 // 10) + pick(resv, want * 2 // 10)
+    spf = [n for n in out if n["family"] == "size_param"]
+    sel = spf + (pick(acc, want * 4 // 10) + pick(rej, want * 1 // 10) + pick(resv, want * 2 // 10)
            + pick(dwf, want * 3 // 10))
     return sel, gen_states, len(out)
 
@@ -79,6 +89,13 @@ def namings(tier: str) -> list[dict]:
 def build_template(n: dict) -> tuple[Any, dict, dict]:
     import pytato as pt
     from pytato.tags import ImplStored, Named, PrefixNamed
+    if n["template"] == "SP":
+        p = pt.make_size_param(n["sp"])
+        a = pt.make_placeholder("x", (p,), np.float64)
+
+        def ref_sp(av: np.ndarray, bv: np.ndarray) -> dict:
+            return {n["outs"][0]: av * av.shape[0] + 1}
+        return {n["outs"][0]: a * p + 1}, {}, {"ref": ref_sp}
     if n["template"] == "DW":
         a = pt.make_placeholder(n["ins"][0], (3,), np.float64)
         d1 = np.array([1.0, 2.0, 3.0])
@@ -126,7 +143,7 @@ def observe(n: dict) -> dict:
     from ptverif import cexec
     rec: dict[str, Any] = {"id": n["id"], "expect": n["expect"], "family": n["family"],
                            "naming": {k: n[k] for k in ("ins", "outs", "named", "template",
-                                                        "kind", "dw", "ndw") if k in n}}
+                                                        "kind", "dw", "ndw", "sp") if k in n}}
     try:
         outs, wrapped, aux = build_template(n)
     except Exception as ex:      # noqa: BLE001
@@ -143,10 +160,13 @@ def observe(n: dict) -> dict:
     args = [a.name for a in knl.args]
     out_args = [a.name for a in knl.args if getattr(a, "is_output", False)]
     temps = sorted(knl.temporary_variables)
-    user = set(n["ins"]) | set(n["outs"]) | ({n["named"]} - {"-"}) | (
+    user = set(n["ins"]) | set(n["outs"]) | ({n["sp"]} if "sp" in n else set()) | (
+        {n["named"]} - {"-"}) | (
         {n["dw"]} if n.get("kind") == "named" else set())
     rng = np.random.default_rng(abs(hash(n["id"])) % (2 ** 31))
     av, bv = rng.standard_normal(3), rng.standard_normal(3).astype(np.float32)
+    if n["template"] == "SP":
+        av = rng.standard_normal(4)
     values_ok, result_keys = True, []
     try:
         kw = {}
@@ -174,7 +194,8 @@ def observe(n: dict) -> dict:
     rec.update({
         "verdict": "accepted", "args": args, "out_args": out_args, "temps": temps,
         "inames": sorted(knl.all_inames()), "substs": sorted(knl.substitutions),
-        "input_names": sorted(set(n["ins"])), "out_keys": sorted(n["outs"]),
+        "input_names": sorted(set(n["ins"]) | ({n["sp"]} if "sp" in n else set())),
+        "out_keys": sorted(n["outs"]),
         "result_keys": result_keys,
         "named_honoured": ([n["named"]] if n["named"] != "-" else [])
         + ([n["dw"]] if n.get("kind") == "named" else []),
@@ -200,10 +221,13 @@ def main(tier: str, only: list[dict] | None = None) -> int:
         sel, gen_states, total = only, 0, len(only)
     else:
         sel, gen_states, total = namings(tier)
-    k = NCPU * 4
-    with mp.Pool(NCPU) as pool:
-        recs = [r for chunk in pool.map(_observe_many, [sel[i::k] for i in range(k) if sel[i::k]])
-                for r in chunk]
+    recs = robust_map(_observe_many, sel, crashed=lambda n, why: {
+        "id": n["id"], "expect": n["expect"], "family": n["family"], "verdict": "accepted",
+        "naming": {k: n[k] for k in ("ins", "outs", "named", "template") if k in n},
+        "args": [], "out_args": [], "temps": [], "inames": [], "substs": [],
+        "input_names": [], "out_keys": [], "result_keys": [], "named_honoured": [],
+        "generated": [], "bound_keys": [], "n_wrapped": 0, "data_identical": True,
+        "values_ok": False, "exec_error": why})
     by_id = {n["id"]: n for n in sel}
     # the "either" expectation of the reserved family: judged as accept when
     # accepted (all invariants except Faithful-by-name still apply), ok when rejected
